@@ -230,8 +230,8 @@ pub open spec fn hashes_wire(s: Seq<[u8; 32]>, n: int) -> Seq<u8>
 { if n <= 0 { Seq::empty() } else { hashes_wire(s, n - 1) + s[n - 1]@ } }
 
 impl Block {
-    /// Block::new / EvaluatedTx::new / Hashed::double_sha256: rayon `into_par_iter().map().collect()`
-    /// (assumed order-preserving) over functions whose hashing contract is proved in unit proto
+    /// Block::new: this contract is PROVED on the real body in unit proto (Block::new, EvaluatedTx::new, From<RawTx>,
+    /// Hashed::double_sha256, to_bytes family; rayon's into_par_iter().map().collect() read as the ordered map it denotes, idiom I29)
     #[verifier::external_body]
     pub fn new(size: u32, header: BlockHeader, aux_pow_extension: Option<AuxPowExtension>, tx_count: VarUint, txs: Vec<RawTx>) -> (r: Block)
         ensures
